@@ -268,8 +268,10 @@ class CoordinateComponent(Component):
             if isinstance(view, (tuple, list)) and isinstance(view[0], np.ndarray):
                 # Negative indices count from the end of each axis, as in any
                 # Numpy indexing, so we look up the pixel positions they refer to
+                # and index arrays of different shapes (e.g. from np.ix_) are
+                # broadcast against each other.
                 pixel = [np.arange(n)[v] for v, n in zip(view, self._data.shape)]
-                return self._world_at_pixel_positions(pixel)
+                return self._world_at_pixel_positions(np.broadcast_arrays(*pixel))
 
             # For 1D arrays, slice can be given as a single slice but we need
             # to wrap it in a list to make the following code work correctly,
